@@ -60,10 +60,14 @@ let () =
       let macro = if mb = 0 then None else Some (nat_of_int mb) in
       let one = S O and two = S (S O) and three = S (S (S O)) in
       let a = c06_vsc_ctor explicit macro one one in
+      let other () = c06_vsc_ctor (Some (S O)) macro two two in         (* another map, buffer 1 *)
       let obj = match v with
         | 4 -> c06_vsc_copy a two
-        | 5 -> let b = c06_vsc_ctor (Some (S O)) macro two two in       (* another map, buffer 1 *)
-               let b = c06_vsc_assign b a false three in c06_vsc_assign b b true (S three)
+        | 5 -> let b = c06_vsc_assign (other ()) a false three in c06_vsc_assign b b true (S three)
+        | 8 -> let _copy = c06_vsc_copy a two in a                     (* the original is observed *)
+        | 9 -> let _b = c06_vsc_assign (other ()) a false three in a
+        | 10 -> c06_vsc_move a two
+        | 11 -> let (_a', b') = c06_vsc_swap a (other ()) three (S three) (S (S three)) in b'
         | _ -> a in
       if int_of_nat obj.vsc_iface <> 1 then failwith "communicator object points to the wrong interface";
       if not c06_channels_separate then failwith "size and data tags coincide: model assumption broken";
